@@ -7,8 +7,18 @@ PID = "C19"
 
 def gen_obj(rng, torch, torchtt):
     dtype = rng.choice([torch.float64, torch.float32, torch.complex128, torch.complex64])
-    kind = rng.choice(["cores", "cores", "svd", "svd-op", "sliced", "sliced-op", "sliced-op-int", "used-as-operand", "transposed", "arith"])
+    kind = rng.choice(["cores", "cores", "svd", "svd-op", "sliced", "sliced-op", "sliced-op-int", "used-as-operand", "transposed", "arith", "mirror-views", "windows"])
     d = rng.choice([1, 2, 3, 4, 5, 6])
+    if kind == "mirror-views":           # a mirror-symmetric train: cores 3, 4 are permuted VIEWS of cores 2, 1 - same storage address, same shape, other strides
+        n1, n2, r_ = rng.choice([2, 3]), rng.choice([2, 3]), rng.choice([2, 3])
+        x0 = history.rand_tt(rng, dtype, N=[n1, n2], rmax=r_)
+        g1 = x0.cores[0]; g2 = torch.randn(g1.shape[2], n2, g1.shape[2], dtype=torch.float64).to(dtype)
+        return torchtt.TT([g1, g2, g2.permute(2, 1, 0), g1.permute(2, 1, 0)]), kind
+    if kind == "windows":                # two same-shaped windows of one buffer that start at the same address
+        n_, r_ = rng.choice([2, 3]), rng.choice([2, 3])
+        buf = torch.randn(r_, 2 * n_, r_, dtype=torch.float64).to(dtype)
+        first = torch.randn(1, 2, r_, dtype=torch.float64).to(dtype); last = torch.randn(r_, 2, 1, dtype=torch.float64).to(dtype)
+        return torchtt.TT([first, buf[:, ::2, :], buf[:, :n_, :], last]), kind
     if kind == "cores":
         o_ = history.rand_tt(rng, dtype, ttm=rng.random() < 0.4, d=d)
         if dtype.is_complex and rng.random() < 0.4:                                 # lazily conjugated core views (conj() of a complex object), order 1 included
@@ -73,9 +83,12 @@ def run(tier, seed, replay=None):
                     "contiguous": [bool(c.is_contiguous()) for c in x.cores], "R_types": sorted(set(type(r).__name__ for r in x.R))}
             if i % 50 == 0 and len(samples) < 5: samples.append(desc)
             snap = history.Snap(x)
-            f = os.path.join(td, "o%d.TT" % i)
+            f = os.path.join(td, "o%d.TT" % i) if i % 4 else os.path.join(td, "shared.TT")     # every fourth object goes through ONE path: load reads the file as it is now
             try:
                 torchtt.save(x, f); y = torchtt.load(f)
+                if i % 8 == 0:                  # what load returned is the caller's: editing it must not reach the next load of the same file
+                    with torch.no_grad(): y.cores[0].mul_(2)
+                    y = torchtt.load(f)
             except Exception as ex:
                 V.fail("save/load raises %s [%s]" % (type(ex).__name__, kind), dict(desc, exc=str(ex)[:200])); continue
             finally:
